@@ -79,11 +79,26 @@ def first_fit(prog):
         if names == ["Iterator::enumerate", "[]::iter"] and root[0] == "param":
             main = lm
             m.F = root
+        elif names == ["[]::iter"] and root[0] == "param" and main is None:
+            main = lm          # the index is a manually maintained counter (checked below)
+            m.F = root
     if main is None:
         raise AnchorMissing("%s: no loop over <param>.iter().enumerate()" % key)
     m.lm = main
-    m.idx = main.item_proj(0)
-    m.frag = main.item_proj(1)
+    from ..idioms import FirstIter
+    fi = FirstIter(prog, body, main)
+    counter_pk = None
+    if fi.idx is not None:
+        m.idx = main.item_proj(0)
+        m.frag = main.item_proj(1)
+    else:
+        # position of the element = number of completed iterations: a usize variable that starts at 0 and is
+        # incremented by one on every path round the loop
+        if len(fi.counters) != 1:
+            raise AnchorMissing("%s: the fragment loop has no enumerate() index and no unique position counter" % key)
+        m.idx = next(iter(fi.counters))
+        counter_pk = m.idx[2]
+        m.frag = main.item
     params = [("param", i + 1, body.arg_names.get(i + 1, "_%d" % (i + 1))) for i in range(body.arg_count)]
     others = [p for p in params if p != m.F]
     if len(others) != 1:
@@ -91,7 +106,7 @@ def first_fit(prog):
     m.LW = others[0]
     m.acc = returned_vec_root(prog, body)
     sv = loop_state_vars(body, main)
-    us = [pk for pk, (n, ty) in sv.items() if ty == "usize"]
+    us = [pk for pk, (n, ty) in sv.items() if ty == "usize" and pk != counter_pk]
     fs = [pk for pk, (n, ty) in sv.items() if ty == "f64"]
     if len(us) != 1 or len(fs) != 1:
         raise AnchorMissing("%s: expected one usize and one f64 loop-carried variable, found %s" % (
@@ -220,7 +235,11 @@ def dispatch(prog):
             for a, pol in facts_at(prog, body, p):
                 if pol and a[0] == "variant":
                     var = a[2]
-            arms[var] = prog.simp(v, body)
+            val = prog.simp(v, body)
+            if var in arms and arms[var] != val:
+                prev = arms[var][1] if arms[var][0] == "one-of" else (arms[var],)
+                val = ("one-of", tuple(prev) + (val,))
+            arms[var] = val
     else:
         arms[None] = prog.simp(ret, body)
     m.arms = arms
@@ -451,5 +470,10 @@ def variant_arms(prog, key):
         for a, pol in facts_at(prog, body, p):
             if pol and a[0] == "variant" and a[1][0] == "param":
                 var = a[2]
-        arms[var] = prog.simp(v, body)
+        val = prog.simp(v, body)
+        if var in arms and arms[var] != val:
+            # the same variant reaches the return with different values (a match guard, an inner branch)
+            prev = arms[var][1] if arms[var][0] == "one-of" else (arms[var],)
+            val = ("one-of", tuple(prev) + (val,))
+        arms[var] = val
     return body, arms
